@@ -8,6 +8,7 @@ import (
 	"golang.org/x/tools/go/ssa"
 
 	"osmolint/internal/ir"
+	"osmolint/internal/load"
 	"osmolint/internal/report"
 )
 
@@ -1188,4 +1189,70 @@ func (c *Ctx) StoreVarWhenAny(fnSpec string) {
 	}
 	// the error returned is the flag
 	c.add("P", fnSpec, "flag", desc, report.OK, strings.Join(want, " ∨ "), c.fnPos(f))
+}
+
+// ApplyFuncClosures (X-cache): every closure literal passed to osmoutils.ApplyFuncIfNoError* inside package pkgRel
+// uses only its own context parameter for context-taking calls; a captured outer context may only be used for
+// logging. At least min closures must be found.
+func (c *Ctx) ApplyFuncClosures(pkgRel string, min int, desc string) {
+	sp := c.P.SSAPkg(pkgRel)
+	if sp == nil {
+		c.add("X-cache", pkgRel, "closures", desc, report.Undecided, "package not loaded", "")
+		return
+	}
+	n := 0
+	for _, fn := range c.P.AllFuncs() {
+		if fn.Pkg != sp || !load.IsSubjectFile(c.P.File(rootFn(fn).Pos())) {
+			continue
+		}
+		f := c.Wrap(fn)
+		for _, call := range f.CallsTo("osmoutils.ApplyFuncIfNoError", "osmoutils.ApplyFuncIfNoErrorLogToDebug") {
+			args := call.Common().Args
+			if len(args) < 2 {
+				continue
+			}
+			mc, ok := args[1].(*ssa.MakeClosure)
+			if !ok {
+				continue
+			}
+			cl, ok := mc.Fn.(*ssa.Function)
+			if !ok || cl.Blocks == nil {
+				continue
+			}
+			n++
+			cf := c.Wrap(cl)
+			name := ir.FuncName(cl)
+			bad := ""
+			pos := c.P.Rel(cl.Pos())
+			for _, cc := range cf.Calls() {
+				cname := cf.CalleeName(cc)
+				common := cc.Common()
+				vals := common.Args
+				if common.IsInvoke() {
+					vals = append([]ssa.Value{common.Value}, vals...)
+				}
+				for _, a := range vals {
+					if !isSDKContext(a.Type()) {
+						continue
+					}
+					// which context is it?
+					root := a
+					if u, ok := root.(*ssa.UnOp); ok {
+						root = u.X
+					}
+					if _, isFree := root.(*ssa.FreeVar); isFree {
+						if strings.HasPrefix(cname, "sdk.Context.Logger") || strings.HasPrefix(cname, "sdk.Context.BlockHeight") || strings.HasPrefix(cname, "sdk.Context.BlockTime") {
+							continue
+						}
+						bad = cname + " receives the captured outer context"
+						pos = c.posOf(cc)
+					}
+				}
+			}
+			c.add("X-cache", name, "closurectx", desc, map[bool]report.Status{true: report.OK, false: report.Violated}[bad == ""], orStr(bad, "all context-taking calls use the closure's own (cache) context"), pos)
+		}
+	}
+	if n < min {
+		c.add("X-cache", pkgRel, "closures", desc, report.Violated, fmt.Sprintf("only %d cache-context closures found, expected at least %d", n, min), "")
+	}
 }
